@@ -159,8 +159,9 @@ def known_for(kn, prop, clause, detail):
 
 
 def write_replay(prop, r, v, plan_text, extra=None):
-    os.makedirs(os.path.join(VERIF, "replays"), exist_ok=True)
-    path = os.path.join(VERIF, "replays", "%s-%s-%d.json" % (prop, r.get("workload", "x"), r["seed"]))
+    rdir = os.environ.get("VERIF_REPLAY_DIR", os.path.join(VERIF, "replays"))     # (tools/try_mutant.sh points this at its scratch copy)
+    os.makedirs(rdir, exist_ok=True)
+    path = os.path.join(rdir, "%s-%s-%d.json" % (prop, r.get("workload", "x"), r["seed"]))
     doc = {"property": prop, "clause": v["clause"], "detail": v["detail"], "variant": r["_variant"], "workload": r.get("workload"), "seed": r["seed"],
            "plan": plan_text.split("\n"), "original_ops": r.get("nops"), "minimised_ops": r.get("min_nops"), "brief": r.get("brief", "")}
     if extra:
@@ -619,8 +620,9 @@ def run_property(prop, spec, tier, seed0):
         },
         "assumptions": spec.get("assumptions", []),
     }
-    os.makedirs(os.path.join(VERIF, "evidence"), exist_ok=True)
-    json.dump(ev, open(os.path.join(VERIF, "evidence", prop + ".json"), "w"), indent=1)
+    edir = os.environ.get("VERIF_EVIDENCE_DIR", os.path.join(VERIF, "evidence"))   # (tools/try_mutant.sh: runs against a changed copy must not touch the real evidence)
+    os.makedirs(edir, exist_ok=True)
+    json.dump(ev, open(os.path.join(edir, prop + ".json"), "w"), indent=1)
     log("%s %s: %d plans (%d distinct non-trivial), %d worker deaths, %d new violation classes, %d known; %.0fs" % (prop, tier, len(results), len(nontrivial), len(crashes), confirmed + len([1 for s in crash_classes]), len(seen_known), wall))
     if len(results) == 0:
         log("harness failure: no plan completed"); return 2
